@@ -513,7 +513,7 @@ func (db *Database) rerankWithNLP(results []SearchResult, query string, options 
 	// Take a larger top slice for reranking to ensure good candidates aren't missed
 	// Minimum 10 to ensure NLP hints can boost commands that rank lower in pure BM25F
 	topK := results
-	candidateLimit := options.Limit * 5
+	candidateLimit := scaledLimit(options.Limit, 5) // saturating: a huge limit must not wrap to a small window
 	if candidateLimit < 10 {
 		candidateLimit = 10
 	}
